@@ -420,6 +420,30 @@ static void exec_step(proc *pr, const pline *l)
         cause *c = cause_add(pr, CK_TIMER, sig, tnow() + d, true); c->handle = h;
         pr->timer_handle[pr->ntimers] = h; pr->timer_cause[pr->ntimers] = (int)(c - pr->cs); pr->ntimers++;
         TR3("timer", pr->id, sig, dbits(c->due));
+    } else if (pis(l, "TBURST")) {
+        /* growth template: thousands of armed timers in one process (the awaitable tag pool crosses 64 chunks at 8192 tags),
+         * all cleared again before the process goes on */
+        int64_t n = pa(l, 1); if (n < 0) n = -n; if (n > 20000) n = 20000;
+        for (int64_t k = 0; k < n; k++) (void)cmb_process_timer_add(pr->pp, 1.0e6 + (double)(k % 7), 2000000 + k);
+        if (cmb_event_pattern_count(CMB_ANY_ACTION, pr->pp, CMB_ANY_OBJECT) < (uint64_t)n) viol("C04", "burst-timers-missing", "armed %" PRId64 " timers but fewer events are scheduled for the process", n);
+        cmb_process_timers_clear(pr->pp);
+        for (int i = 0; i < pr->ncs; i++) if (pr->cs[i].kind == CK_TIMER && (pr->cs[i].state == CS_ARMED || pr->cs[i].state == CS_MAYBE)) pr->cs[i].state = CS_DEAD;
+        if (n >= 8192) PROBE("probe.awaitable_tags_ge_64_chunks");
+        TR2("tburst", pr->id, n);
+    } else if (pis(l, "QBURST")) {
+        /* growth template: tens of thousands of queued objects (queue tag pool crosses 64 chunks at 16384 tags; histories > 1024 samples) */
+        if (W.noq == 0) return;
+        const int q = (int)((uint64_t)pa(l, 1) % (uint64_t)W.noq);
+        if (W.oqcap[q] != CMB_UNLIMITED || W.oqn[q] != 0 || cmb_objectqueue_length(W.oq[q]) != 0) return;
+        int64_t n = pa(l, 2); if (n < 0) n = -n; if (n > 40000) n = 40000;
+        for (int64_t k = 0; k < n; k++) if (cmb_objectqueue_put(W.oq[q], (void *)(uintptr_t)(0x400000 + 16 * k)) != CMB_PROCESS_SUCCESS) { viol("C12", "burst-put-failed", "put into an unlimited queue did not succeed at once"); return; }
+        if (cmb_objectqueue_length(W.oq[q]) != (uint64_t)n) viol("C12", "length-mismatch", "queue length %" PRIu64 " after %" PRId64 " puts", cmb_objectqueue_length(W.oq[q]), n);
+        for (int64_t k = 0; k < n; k++) {
+            void *o = NULL;
+            if (cmb_objectqueue_get(W.oq[q], &o) != CMB_PROCESS_SUCCESS || o != (void *)(uintptr_t)(0x400000 + 16 * k)) { viol("C12", "fifo-order", "burst: object #%" PRId64 " came out as %p", k, o); return; }
+        }
+        if (n >= 16384) PROBE("probe.queue_tags_ge_64_chunks");
+        TR3("qburst", pr->id, q, n);
     } else if (pis(l, "TCANCEL")) {
         if (pr->ntimers == 0) return;
         const int k = (int)((uint64_t)pa(l, 1) % (uint64_t)pr->ntimers);
